@@ -55,18 +55,19 @@ import (
 type loc = [2]int
 
 type caseT struct {
-	Stream   string           `json:"stream"`
-	Body     string           `json:"body"` // base64 of the request text
-	Text     string           `json:"text,omitempty"`
-	Pos      []int            `json:"pos,omitempty"` // a: offsets to query
-	NilSrc   bool             `json:"nil_source,omitempty"`
-	Kind     string           `json:"kind,omitempty"`   // b: mutation, c: fault
-	LB       int              `json:"lb,omitempty"`     // b: lowest admissible error offset
-	UB       int              `json:"ub,omitempty"`     // b: highest admissible error offset, -1 = unknown
-	Expect   []int            `json:"expect,omitempty"` // c: offsets of the nodes the error must name, in order
-	FailSeed uint64           `json:"fail_seed,omitempty"`
-	Marks    map[string][]int `json:"marks,omitempty"` // d: response key -> offsets of its field nodes, collection order
-	Keys     []interface{}    `json:"keys,omitempty"`  // p: keys (string) and list indices (number) passed to WithKey
+	Stream    string           `json:"stream"`
+	Body      string           `json:"body"` // base64 of the request text
+	Text      string           `json:"text,omitempty"`
+	Pos       []int            `json:"pos,omitempty"` // a: offsets to query
+	NilSrc    bool             `json:"nil_source,omitempty"`
+	Kind      string           `json:"kind,omitempty"`       // b: mutation, c: fault
+	LB        int              `json:"lb,omitempty"`         // b: lowest admissible error offset
+	UB        int              `json:"ub,omitempty"`         // b: highest admissible error offset, -1 = unknown
+	Expect    []int            `json:"expect,omitempty"`     // c: offsets of the nodes the error must name, in order
+	ExpectAll [][]int          `json:"expect_all,omitempty"` // c (fragmentCycle): the complete set of errors, each as the offsets of its nodes in order
+	FailSeed  uint64           `json:"fail_seed,omitempty"`
+	Marks     map[string][]int `json:"marks,omitempty"` // d: response key -> offsets of its field nodes, collection order
+	Keys      []interface{}    `json:"keys,omitempty"`  // p: keys (string) and list indices (number) passed to WithKey
 	// e: a sequence of requests served through ONE PlanCache
 	Steps      []stepT `json:"steps,omitempty"`
 	Normalize  bool    `json:"normalize,omitempty"`
@@ -659,6 +660,20 @@ func faultyDoc(r *hx.Rng) ([]gen.Tok, []string, string) {
 }
 
 func genC(r *hx.Rng) (caseT, bool) {
+	if r.Chance(1, 8) {
+		toks, lists := cycleDoc(hx.NewRng(r.U64()))
+		text, starts := gen.Layout(r, toks, gen.LayoutOpts{Dense: r.Chance(1, 4)})
+		c := caseT{Stream: "c", Kind: "fragmentCycle", Body: b64(text)}
+		for _, l := range lists {
+			offs, ok := offsetsOf(toks, starts, l)
+			if !ok {
+				run.CheckError("generator lost a cycle mark")
+				return caseT{}, false
+			}
+			c.ExpectAll = append(c.ExpectAll, offs)
+		}
+		return c, true
+	}
 	toks, marks, kind := faultyDoc(r)
 	text, starts := gen.Layout(r, toks, gen.LayoutOpts{NonASCII: r.Chance(1, 12), Dense: r.Chance(1, 4)})
 	exp, ok := offsetsOf(toks, starts, marks)
@@ -732,6 +747,32 @@ func caseC(c caseT) {
 				return
 			}
 		}
+	}
+	if c.ExpectAll != nil {
+		// the complete set of errors is known: compare as multisets of ordered location lists
+		var wantAll, gotCanon []string
+		for _, l := range c.ExpectAll {
+			ls := []loc{}
+			for _, off := range l {
+				ls = append(ls, loc{lc.Line[off], lc.Col[off]})
+			}
+			wantAll = append(wantAll, hx.Canon(ls))
+		}
+		for _, g := range gotAll {
+			gotCanon = append(gotCanon, hx.Canon(g))
+		}
+		sort.Strings(wantAll)
+		sort.Strings(gotCanon)
+		run.Case("c|"+body, true, map[string]interface{}{"stream": "c", "kind": c.Kind, "text": gen.Describe(body), "expected": wantAll})
+		run.Tag("c:" + c.Kind)
+		run.Tag(fmt.Sprintf("c:%s:cycle-length=%d,other-errors=%d", c.Kind, len(c.ExpectAll[len(c.ExpectAll)-1]), len(c.ExpectAll)-1))
+		if hx.Canon(gotCanon) != hx.Canon(wantAll) {
+			det["errors"] = vr.Errors
+			det["go_location_lists"] = gotCanon
+			det["expected_location_lists"] = wantAll
+			violation("the validation errors of a document with one fragment cycle are not located at exactly the spreads on the cycle in path order (plus one error per unknown fragment name)", c, det)
+		}
+		return
 	}
 	var want []loc
 	for _, off := range c.Expect {
